@@ -14,6 +14,9 @@ def run_check(prop, tier, repo, seed, evidence_dir=None, quiet=False):
         ctx = report.Ctx(prop, tier, repo, seed=seed, evidence_dir=evidence_dir, quiet=quiet)
         mod = importlib.import_module("agstatic.rules.%s" % prop.lower())
         mod.run(ctx)
+        if tier == "thorough" and getattr(mod, "MUTATION_TARGETS", None) and not getattr(mod, "OWN_MUTATION_ADEQUACY", False):
+            from . import adequacy
+            adequacy.run(ctx, mod, prop, seed)
         return report.finish(ctx)
     except AnalysisError as e:
         if ctx is None:
